@@ -243,6 +243,9 @@ func (s *Sim) onEvent(oi int, h ecs.Entity, ptrs []unsafe.Pointer) {
 		s.firedRaw = append(s.firedRaw, firing{Obs: oi, H: h, Ev: o.Spec.Ev})
 	}
 	s.C.Faults["cb_invocations"]++
+	if t.depth > 0 {
+		s.C.Faults["cb_nested_invocations"]++
+	}
 
 	// Find the row this callback belongs to.
 	var row *evRow
@@ -258,6 +261,9 @@ func (s *Sim) onEvent(oi int, h ecs.Entity, ptrs []unsafe.Pointer) {
 		return
 	}
 	before := o.Spec.Ev == EvRemove || o.Spec.Ev == EvRemoveComps || o.Spec.Ev == EvRemoveRel
+	if t.depth > 0 && t.forceBefore {
+		before = true // raised from inside a removal callback: nothing has changed yet
+	}
 	ent, key := s.view(t, h, before)
 	if ent == nil {
 		s.violate("C09", "cb.entity", t.kind+"/"+EvName(o.Spec.Ev), false, "observer %d (%s) called with handle %v that the operation %s does not affect", oi, EvName(o.Spec.Ev), h, t.kind)
@@ -326,10 +332,13 @@ func (s *Sim) onEvent(oi int, h ecs.Entity, ptrs []unsafe.Pointer) {
 	if len(o.Script) > 0 {
 		act = o.Script[(o.Calls-1)%len(o.Script)]
 	}
-	s.cbAction(t, o, oi, act, h, ent, before, expLocked)
+	if t.depth > 0 && (act == CbSet || act == CbEmit) {
+		act = CbNothing // one level of nesting only
+	}
+	s.cbAction(t, o, oi, act, h, ent, key, before, expLocked)
 }
 
-func (s *Sim) cbAction(t *txn, o *ObsInst, oi int, act int, h ecs.Entity, ent *Ent, before bool, expLocked bool) {
+func (s *Sim) cbAction(t *txn, o *ObsInst, oi int, act int, h ecs.Entity, ent *Ent, key int, before bool, expLocked bool) {
 	if act != CbNothing {
 		s.C.Faults["cb_"+CbNames[act]]++
 	}
@@ -406,6 +415,49 @@ func (s *Sim) cbAction(t *txn, o *ObsInst, oi int, act int, h ecs.Entity, ent *E
 				}
 			} else {
 				ent.Comps[tp] = v
+			}
+			break
+		}
+	case CbEmit:
+		// a custom event emitted from inside the callback (nested dispatch); allowed on a locked world
+		ev := EvCustom0 + o.Calls%NumCustom
+		t.rows = append(t.rows, evRow{Ev: ev, Key: key, Basis: ent.Types()})
+		evt := s.W.Event(s.eventType(ev))
+		t.depth++
+		t.forceBefore = before
+		p, val := s.call(func() { evt.Emit(h) })
+		t.depth--
+		if p {
+			s.violate("C07", "lock.allows", "Emit/in_callback", true, "emitting a custom event from inside a %s callback of %s panicked: %v", EvName(o.Spec.Ev), t.kind, val)
+		}
+	case CbSet:
+		// Map.Set from inside the callback: writes a value and emits OnSetComponents (nested dispatch)
+		for _, tp := range ent.Types() {
+			if U[tp].Mask != allBits {
+				continue
+			}
+			v := uint64(0x6000000000) + uint64(s.OpIdx)*64 + uint64(o.Calls%64)
+			t.rows = append(t.rows, evRow{Ev: EvSet, Key: key, Affected: []int{tp}, Basis: ent.Types()})
+			// the new value is part of the expected state before the nested callbacks run
+			if l, ok := s.M.ByHandle[h]; ok {
+				if _, has := s.M.Get(l).Comps[tp]; has {
+					s.M.Get(l).Comps[tp] = v
+				}
+				if pe, ok := t.post[l]; ok && pe.Alive {
+					if _, has := pe.Comps[tp]; has {
+						pe.Comps[tp] = v
+					}
+				}
+			} else {
+				ent.Comps[tp] = v
+			}
+			m := s.mapper(tp)
+			t.depth++
+			t.forceBefore = before
+			p, val := s.call(func() { m.Set(h, []uint64{v}) })
+			t.depth--
+			if p {
+				s.violate("C07", "lock.allows", "Set/in_callback", true, "Map.Set from inside a %s callback of %s panicked: %v", EvName(o.Spec.Ev), t.kind, val)
 			}
 			break
 		}
